@@ -164,6 +164,8 @@ def write_rules(ck, agg, nn):
                             "%s: one transmission of a single frame can take %d payload load(s) and %d timed re-send wait(s) - the sender blocks for a multiple of tx_timeout" % (label, len(loads), len(stand)),
                             (stand[-1].node if stand else None))
                     for e in stand:
+                        if e.data[1] is None and len(P.method(mix, "_tx_standby").params) == 1:
+                            continue        # the wait reads tx_timeout itself: judged by standby_rule()
                         ll = as_lin(norm(e.data[1])) if e.data[1] is not None else None
                         agg.add("R13.7", f_wtp, "the re-send wait is budgeted with tx_timeout", ll is not None and ll.terms == {"node.tx_timeout": 1} and ll.c == 0,
                                 "%s: the timed re-send wait is given %r" % (label, e.data[1]), e.node)
@@ -233,7 +235,13 @@ def standby_rule(ck, agg):
     nn.model.opaque.pop(f.qualname, None)
     st, node = nn.fresh()
     net.set_rng(st, "budget", (0, None))
-    outs = nn.run(f, node, [Sym("budget", "int", rng=(0, None))], st, limits=Limits(max_paths=4000, loop_unroll=3, depth=8))
+    budget = Sym("budget", "int", rng=(0, None))
+    if len(f.params) > 1:
+        outs = nn.run(f, node, [budget], st, limits=Limits(max_paths=4000, loop_unroll=3, depth=8))
+    else:
+        # the wait takes no budget argument: it must read the node's tx_timeout itself (the same budget, judged here instead of at the call site)
+        st.heap[node.ident].fields["tx_timeout"] = budget
+        outs = nn.run(f, node, [], st, limits=Limits(max_paths=4000, loop_unroll=3, depth=8))
     n = 0
     for out in outs:
         if out.kind != "return":
@@ -294,6 +302,8 @@ def run(ck):
     # too short or carry an invalid address (R05.3/R05.6, shared with C05)
     from . import c05
     c05.receive(ck, agg, net.NetNode(ck, "rf24_network", "RF24Network"))
+    # "the NETWORK_ACK goes back to the origin": the origin a frame names is the node that called write()/send() (R05.9, shared with C05)
+    c05.validate(ck, agg, net.NetNode(ck, "rf24_network", "RF24Network"))
     # _write() ends every transmission with `listen = True`: the radio layer's setters must not clear MAX_RT on the way, or the frame of a
     # failed write() goes out (and is acknowledged) in front of the next one (R03.8, shared with C03)
     from . import c03
